@@ -226,13 +226,11 @@ structure Diag where
   b : Nat
   deriving Repr, DecidableEq
 
-def enum {α} (l : List α) : List (Nat × α) := (List.range l.length).zip l
-
 /-! ### `detect_missing_constructors` -/
 
 /-- diagnostics for one processed component. -/
 def DB.missingAt (db : DB) (i : Nat) : List Diag :=
-  (enum (db.comp i).ins).filterMap (fun (k, x) =>
+  (db.comp i).ins.zipIdx.filterMap (fun (x, k) =>
     match db.lookup (db.comp i).scope x.ty with
     | none => some ⟨.missing, i, k⟩
     | some c =>
@@ -254,7 +252,7 @@ def Kind.noMutInputs : Kind → Bool
 def DB.mutInputs (db : DB) : List Diag :=
   (List.range db.n).filterMap (fun i =>
     if (db.comp i).kind.noMutInputs then
-      ((enum (db.comp i).ins).find? (fun (_, x) => x.mode == .mut)).map (fun (k, _) => ⟨.mutInput, i, k⟩)
+      ((db.comp i).ins.zipIdx.find? (fun (x, _) => x.mode == .mut)).map (fun (_, k) => ⟨.mutInput, i, k⟩)
     else none)
 
 /-! ### `verify_singleton_ambiguity` -/
@@ -346,7 +344,7 @@ def DB.threadSafety (db : DB) : List Diag :=
     (if t.sync then [] else [⟨.notSync, c, (db.comp c).out⟩]))
 
 def DB.byValueAt (db : DB) (i : Nat) : List Diag :=
-  (enum (db.comp i).ins).filterMap (fun (k, x) =>
+  (db.comp i).ins.zipIdx.filterMap (fun (x, k) =>
     match db.lookup (db.comp i).scope x.ty with
     | some c =>
       if x.mode = .val ∧ (db.comp c).life = .singleton ∧ !(db.ty x.ty).copy ∧ !(db.comp c).cloneIfNec
@@ -362,20 +360,22 @@ def wellKnownMethods : List Nat := [0, 1, 2, 3, 4, 5, 6, 7, 8]
 
 def Route.accepts (r : Route) (m : Nat) : Bool := r.any || r.methods.contains m
 
+/-- the routes registered for template `p` (↔ one entry of `path2method2component_id`). -/
+def DB.group (db : DB) (p : List Seg) : List Route := db.routes.filter (fun r => r.path == p)
+
+def DB.paths (db : DB) : List (List Seg) := (db.routes.map (·.path)).eraseDups
+
 /-- ↔ `detect_method_conflicts` (after the fix: non-standard methods named by a guard are examined too). -/
 def DB.methodConflicts (db : DB) : List Diag :=
-  (enum db.routes).flatMap (fun (k, r) =>
-    -- one report per (path, method): attribute it to the first route registered for that path
-    if (db.routes.take k).any (fun r' => r'.path == r.path) then [] else
-    let group := db.routes.filter (fun r' => r'.path == r.path)
+  (db.paths.zipIdx).flatMap (fun (p, k) =>
+    let group := db.group p
     let methods := (wellKnownMethods ++ group.flatMap (·.methods)).eraseDups
     methods.filterMap (fun m => if (group.filter (·.accepts m)).length > 1 then some ⟨.routeMethodConflict, k, m⟩ else none))
 
 /-- before the fix: only the nine well-known methods. -/
 def DB.methodConflictsStd (db : DB) : List Diag :=
-  (enum db.routes).flatMap (fun (k, r) =>
-    if (db.routes.take k).any (fun r' => r'.path == r.path) then [] else
-    let group := db.routes.filter (fun r' => r'.path == r.path)
+  (db.paths.zipIdx).flatMap (fun (p, k) =>
+    let group := db.group p
     wellKnownMethods.filterMap (fun m => if (group.filter (·.accepts m)).length > 1 then some ⟨.routeMethodConflict, k, m⟩ else none))
 
 /-- matchit 0.9's insertion conflict, semantically (parameter names are erased before insertion):
@@ -393,7 +393,7 @@ def shapeConflict : List Seg → List Seg → Bool
 /-- ↔ `detect_path_conflicts`: paths are inserted in registration order; an insertion fails when the
     router already holds a *different* template of the same shape. -/
 def DB.pathConflicts (db : DB) : List Diag :=
-  (enum db.routes).filterMap (fun (k, r) =>
+  db.routes.zipIdx.filterMap (fun (r, k) =>
     if (db.routes.take k).any (fun r' => r'.path != r.path && shapeConflict r'.path r.path) then
       some ⟨.routePathConflict, k, 0⟩ else none)
 
@@ -407,7 +407,7 @@ def paramNames : List Seg → List Nat
 
 /-- after the fix: every `PathParams<T>` constructor in the handler's graph is checked. -/
 def DB.pathParams (db : DB) : List Diag :=
-  (enum db.routes).flatMap (fun (k, r) =>
+  db.routes.zipIdx.flatMap (fun (r, k) =>
     let g := closure db.deps db.n [r.comp]
     db.pparams.filterMap (fun pp =>
       if g.any (fun c => (db.comp c).kind = .ctor && (db.comp c).out = pp.ty) ∧
@@ -446,7 +446,7 @@ def DB.reachFrom (db : DB) (r : Nat) : List Nat := closure (db.depsFrom (db.comp
 /-- an input without a constructor, as the call graph of root `r` sees it. -/
 def DB.missingFromRoot (db : DB) (r : Nat) : List Diag :=
   (db.reachFrom r).flatMap (fun i =>
-    (enum (db.comp i).ins).filterMap (fun (k, x) =>
+    (db.comp i).ins.zipIdx.filterMap (fun (x, k) =>
       match db.lookup (db.comp r).scope x.ty with
       | none => some ⟨.missing, i, k⟩
       | some _ => none))
